@@ -35,7 +35,31 @@ type Field struct {
 	TagKey string // explicit key in the serix tag ("" = derived from the name)
 	Opt    bool
 	Omit   bool // serix tag "omitempty" (never together with Opt)
+	Inline bool // serix tag "inlined" (struct by value or pointer): its entries live in the enclosing object
+	Emb    bool // embedded (anonymous) struct field; without Inline its entries are flattened too and its object code is ignored
 	S      *Schema
+}
+
+// flat: the entries of the field's struct are written into / read from the enclosing object: a plain embedded struct,
+// or an inlined field WITHOUT an explicit key (with a key, "inlined" makes it an ordinary nested field under that key;
+// the decoder disagreed before 18e6a53).
+func (f *Field) flat() bool { return (f.Emb && !f.Inline) || (f.Inline && f.TagKey == "") }
+
+// hasTypeKey: the flattened keys of the struct include "type" (its own code counts unless it is a plain embedded struct).
+func (s *Schema) hasTypeKey(plainEmb bool) bool {
+	if s.Code >= 0 && !plainEmb {
+		return true
+	}
+	for _, f := range s.Fields {
+		if f.flat() {
+			if f.S.hasTypeKey(f.Emb && !f.Inline) {
+				return true
+			}
+		} else if f.Key() == "type" {
+			return true
+		}
+	}
+	return false
 }
 
 var (
@@ -100,7 +124,10 @@ func (s *Schema) build() reflect.Type {
 			if f.Omit {
 				tag += ",omitempty"
 			}
-			fs[i] = reflect.StructField{Name: f.Name, Type: f.S.build(), Tag: reflect.StructTag(`serix:"` + tag + `"`)}
+			if f.Inline {
+				tag += ",inlined"
+			}
+			fs[i] = reflect.StructField{Name: f.Name, Type: f.S.build(), Tag: reflect.StructTag(`serix:"` + tag + `"`), Anonymous: f.Emb}
 		}
 		s.T = reflect.StructOf(fs)
 		if s.Ptr {
@@ -196,7 +223,10 @@ func coqStr(s string) string {
 	return "(bs " + vx.Bytes([]byte(s)) + ")"
 }
 
-func (s *Schema) coq() string {
+func (s *Schema) coq() string { return s.coqCode(true) }
+
+// coqCode prints the schema; withCode=false drops the object code of a struct (plain embedded struct).
+func (s *Schema) coqCode(withCode bool) string {
 	switch s.Kind {
 	case "bool":
 		return "SBool"
@@ -218,7 +248,7 @@ func (s *Schema) coq() string {
 		return "STime"
 	case "struct":
 		code := "None"
-		if s.Code >= 0 {
+		if s.Code >= 0 && withCode {
 			code = "(Some " + vx.N(uint64(s.Code)) + ")"
 		}
 		fs := vx.ListOf(s.Fields, func(f *Field) string {
@@ -228,6 +258,10 @@ func (s *Schema) coq() string {
 			}
 			if f.Omit {
 				m = "FOmit"
+			}
+			if f.flat() {
+				// the field key is unused; the type settings (object code) of a plain embedded struct are not consulted
+				return `(""%string, FInline, ` + f.S.coqCode(f.Inline) + ")"
 			}
 			return "(" + coqStr(f.Key()) + ", " + m + ", " + f.S.coq() + ")"
 		})
